@@ -431,20 +431,25 @@ CLAIMED = True
 TECHNIQUE = ("Lean 4 proof: hand model (checked reads/writes confined to the given range) = declarative spec for all inputs; "
              "model tied to the code by exhaustive small-scope + random correspondence run against tetl and libstdc++")
 LEVEL_TEXT = ("Every function of etl/algorithm.hpp and the folds of etl/numeric.hpp is modelled loop by loop in Lean 4 over a list "
-              "`P ++ range ++ S` with every dereference checked to lie inside the range the algorithm was given. For the algorithms "
-              "listed in coverage.theorems the model is proved, for all element types, ranges, contexts, predicates, split points and "
-              "counts (no size bound), to return `.ok` (never touches anything outside the range) of exactly the declaratively "
-              "specified std result with the context unchanged. All algorithms (with or without a theorem) are tied to the current "
+              "`P ++ range ++ S` with every dereference checked to lie inside the range the algorithm was given. For every modelled "
+              "algorithm (coverage.theorems) the model is proved, for all element types, ranges, contexts, predicates, split points and "
+              "counts (no size bound), to return `.ok` (never touches anything outside the range; fuelled loops such as gnome_sort, "
+              "rotate, merge_sort terminate within their fuel) of exactly the declaratively specified std result with the context "
+              "unchanged: unstable sorts / partition = a sorted (partitioned) permutation, stable sorts and inplace_merge = the unique "
+              "stable sorted permutation (List.mergeSort / List.merge), set operations = the standard's multiplicity rules. Hypotheses "
+              "are the standard's preconditions only (comparator is a strict weak order, binary predicate of is_permutation an "
+              "equivalence, sorted / partitioned inputs for the binary searches, set operations and inplace_merge, non-overlap rule of "
+              "copy / copy_backward, room in the second range). All algorithms are tied to the current "
               "source on every run: model, implementation (ASan/UBSan, exact-size heap ranges, context sentinels, predicate-touch log, "
               "pointer/input/forward/bidirectional/output iterator wrappers) and libstdc++ are run on the same inputs, exhaustive over "
               "the property's own small box and random beyond; the spec is validated against libstdc++ on the same inputs.")
 LEVEL_NOTE = ("Trusted: Lean kernel + propext/Classical.choice/Quot.sound; the hand model's fidelity outside the explored inputs; "
-              "g++-12/ASan; libstdc++ as oracle for spec validation. Algorithms without a theorem yet are listed in evidence "
-              "coverage.correspondence_only and are covered by the differential run only. Complexity requirements of the standard "
+              "g++-12/ASan; libstdc++ as oracle for spec validation. No modelled algorithm is left without a theorem "
+              "(coverage.correspondence_only is empty). nth_element / partial_sort are proved to leave a fully sorted permutation "
+              "(what this library does), which implies the standard's weaker postconditions. Complexity requirements of the standard "
               "(e.g. partition_point is linear here) are outside the property and not checked.")
 # members modelled and compared on every run but without a Lean theorem yet
-CORRESPONDENCE_ONLY = [
-    "merge_sort", "inplace_merge"]
+CORRESPONDENCE_ONLY = []
 # algorithms whose model is proved equal to the spec for all inputs (TetlProofs/C06/Props.lean)
 WITH_THEOREM = [
     "find", "find_if", "find_if_not", "all_of", "any_of", "none_of", "count", "count_if", "for_each", "for_each_n",
@@ -460,5 +465,5 @@ WITH_THEOREM = [
     "sort", "gnome_sort (incl. termination)", "nth_element", "partial_sort", "bubble_sort", "exchange_sort",
     "stable_sort", "insertion_sort (stability)",
     "min_element", "max_element", "minmax_element", "is_permutation (3/4 iterators)", "includes", "set_difference",
-    "set_intersection", "set_symmetric_difference", "set_union"]
+    "set_intersection", "set_symmetric_difference", "set_union", "inplace_merge (stable merge)", "merge_sort (stability)"]
 UNPROVED_OBSERVED = ["complexity requirements of the standard (not part of the property; partition_point is linear here)"]
